@@ -36,7 +36,7 @@ REQUIRED_LABELS = {"form:kw-permuted": 0.05, "form:invalid": 0.05, "alg:graded":
 
 
 def budget(tier):
-    n = int(os.environ.get("KV_EXAMPLES", 0)) or (16000 if tier == "quick" else 300000)
+    n = int(os.environ.get("KV_EXAMPLES", 0)) or (32000 if tier == "quick" else 300000)
     return {"examples": n, "shards": 16, "wall": 90 if tier == "quick" else 900, "fuzz_runs": 60000 if tier == "thorough" else 0}
 
 
